@@ -167,6 +167,8 @@ class RecurrencePlot(Cached):
 
         self.N: int = 0
         """The number of state vectors (number of lines and rows) of the RP."""
+        self._mut_R: int = 0
+        """mutation count tracking `self.R`"""
         self.R = None
         """The recurrence matrix."""
 
@@ -238,6 +240,17 @@ class RecurrencePlot(Cached):
                 f"time series shape {self.time_series.shape}.\n"
                 f"Embedding dimension {self.dim if self.dim else 0}\n"
                 f"Threshold {self.threshold}, {self.metric} metric")
+
+    @property
+    def R(self):
+        """The recurrence matrix."""
+        return self._R
+
+    @R.setter
+    def R(self, R):
+        self._R = R
+        # invalidate cache
+        self._mut_R += 1
 
     @property
     def embedding(self) -> np.ndarray:
@@ -558,6 +571,9 @@ class RecurrencePlot(Cached):
         if self.silence_level <= 1:
             print("Calculating recurrence plot at fixed threshold...")
 
+        #  Sequential RQA and `__str__()` refer to the current threshold
+        self.threshold = threshold
+
         distance = RecurrencePlot.distance_matrix(self, self.metric)
         n_time = distance.shape[0]
         recurrence = np.zeros((n_time, n_time), dtype="int8")
@@ -604,6 +620,7 @@ class RecurrencePlot(Cached):
         n_time = distance.shape[0]
         threshold = self.threshold_from_recurrence_rate(distance,
                                                         recurrence_rate)
+        self.threshold = threshold
         recurrence = np.zeros((n_time, n_time), dtype="int8")
         recurrence[distance < threshold] = 1
         self.R = recurrence
@@ -624,6 +641,9 @@ class RecurrencePlot(Cached):
         if self.silence_level <= 1:
             print("Calculating recurrence plot at fixed "
                   "local recurrence rate...")
+
+        #  There is no global threshold
+        self.threshold = None
 
         distance = RecurrencePlot.distance_matrix(self, self.metric)
         n_time = distance.shape[0]
@@ -660,6 +680,9 @@ class RecurrencePlot(Cached):
         if self.silence_level <= 1:
             print("Calculating recurrence plot using the "
                   "adaptive neighborhood size algorithm...")
+
+        #  There is no global threshold
+        self.threshold = None
 
         distance = RecurrencePlot.distance_matrix(self, self.metric)
 
@@ -843,7 +866,7 @@ class RecurrencePlot(Cached):
     #
 
     @Cached.method(attrs=(
-        "metric", "threshold", "missing_values", "sparse_rqa"))
+        "metric", "threshold", "missing_values", "sparse_rqa", "_mut_R"))
     def diagline_dist(self):
         """
         Return the :index:`frequency distribution of diagonal line lengths
@@ -1068,7 +1091,7 @@ class RecurrencePlot(Cached):
     #
 
     @Cached.method(attrs=(
-        "metric", "threshold", "missing_values", "sparse_rqa"))
+        "metric", "threshold", "missing_values", "sparse_rqa", "_mut_R"))
     def vertline_dist(self):
         """
         Return the :index:`frequency distribution of vertical line lengths
